@@ -180,6 +180,12 @@ class WMSSource(MapLayer):
         if self.supported_srs != other.supported_srs:
             return False
 
+        if self.supported_srs and other.supported_srs:
+            # equal SRS can have different codes (EPSG:3857/900913)
+            if ([getattr(srs, 'srs_code', srs) for srs in self.supported_srs] !=
+                    [getattr(srs, 'srs_code', srs) for srs in other.supported_srs]):
+                return False
+
         if self.supported_formats != other.supported_formats:
             return False
 
